@@ -476,7 +476,22 @@ func runBatch(cases []kase, idx []int, outs []outcome, keys string, seed uint64)
 		if pos < len(idx) {
 			// the child died while working on idx[pos]
 			if strings.Contains(se.String(), "panic:") || strings.Contains(se.String(), "fatal error:") {
-				outs[idx[pos]] = outcome{line: "panic ? ?", stderr: firstLine(se.String())}
+				if f := os.Getenv("VERIF_C22_STACKS"); f != "" {
+					if fh, err := os.OpenFile(f, os.O_APPEND|os.O_CREATE|os.O_WRONLY, 0o644); err == nil {
+						fmt.Fprintf(fh, "=== %s\n%s\n", cases[idx[pos]].String(), se.String())
+						fh.Close()
+					}
+				}
+				// keep the panic line and the first frame of the stack: the panic may come from a goroutine
+				// a previous case of this child left behind (e.g. a Close running concurrently)
+				where := ""
+				for _, l := range strings.Split(se.String(), "\n") {
+					if strings.Contains(l, ".go:") {
+						where = " at " + strings.TrimSpace(l)
+						break
+					}
+				}
+				outs[idx[pos]] = outcome{line: "panic ? ?", stderr: firstLine(se.String()) + where}
 				pos++
 				continue
 			}
